@@ -48,6 +48,7 @@ import (
 	"github.com/tochemey/goakt/v4/internal/locker"
 	"github.com/tochemey/goakt/v4/internal/memberlist"
 	"github.com/tochemey/goakt/v4/internal/types"
+	"github.com/tochemey/goakt/v4/internal/verifhook"
 	"github.com/tochemey/goakt/v4/log"
 	gtls "github.com/tochemey/goakt/v4/tls"
 )
@@ -462,6 +463,7 @@ func (x *cluster) Stop(ctx context.Context) error {
 // PutActor persists the supplied actor metadata into the cluster state and
 // updates the local peer cache.
 func (x *cluster) PutActor(ctx context.Context, actor *internalpb.Actor) error {
+	verifhook.At("cluster.PutActor", x, 0, 0)
 	if !x.running.Load() {
 		return ErrEngineNotRunning
 	}
@@ -486,6 +488,7 @@ func (x *cluster) PutActor(ctx context.Context, actor *internalpb.Actor) error {
 // not overwrite a concurrent registration. It returns ErrActorAlreadyExists
 // when another record already holds the name.
 func (x *cluster) PutActorIfAbsent(ctx context.Context, actor *internalpb.Actor) error {
+	verifhook.At("cluster.PutActorIfAbsent", x, 0, 0)
 	if !x.running.Load() {
 		return ErrEngineNotRunning
 	}
@@ -515,6 +518,7 @@ func (x *cluster) PutActorIfAbsent(ctx context.Context, actor *internalpb.Actor)
 
 // GetActor fetches actor metadata by name from the unified map.
 func (x *cluster) GetActor(ctx context.Context, actorName string) (*internalpb.Actor, error) {
+	verifhook.At("cluster.GetActor", x, 0, 0)
 	if !x.running.Load() {
 		return nil, ErrEngineNotRunning
 	}
@@ -535,6 +539,7 @@ func (x *cluster) GetActor(ctx context.Context, actorName string) (*internalpb.A
 
 // RemoveActor deletes an actor entry from the unified map and peer cache.
 func (x *cluster) RemoveActor(ctx context.Context, actorName string) error {
+	verifhook.At("cluster.RemoveActor", x, 0, 0)
 	if !x.running.Load() {
 		return ErrEngineNotRunning
 	}
@@ -548,6 +553,7 @@ func (x *cluster) RemoveActor(ctx context.Context, actorName string) error {
 // ActorExists reports whether an actor with the given name exists in the
 // cluster.
 func (x *cluster) ActorExists(ctx context.Context, actorName string) (bool, error) {
+	verifhook.At("cluster.ActorExists", x, 0, 0)
 	if !x.running.Load() {
 		return false, ErrEngineNotRunning
 	}
@@ -610,6 +616,7 @@ func (x *cluster) CountActorsByHost(ctx context.Context, timeout time.Duration) 
 
 // PutGrain stores the provided grain metadata and refreshes the peer state.
 func (x *cluster) PutGrain(ctx context.Context, grain *internalpb.Grain) error {
+	verifhook.At("cluster.PutGrain", x, 0, 0)
 	if !x.running.Load() {
 		return ErrEngineNotRunning
 	}
@@ -670,6 +677,7 @@ func PutGrainIfAbsent(ctx context.Context, cl Cluster, grain *internalpb.Grain) 
 
 // GetGrain loads a grain by identity from the unified map.
 func (x *cluster) GetGrain(ctx context.Context, identity string) (*internalpb.Grain, error) {
+	verifhook.At("cluster.GetGrain", x, 0, 0)
 	if !x.running.Load() {
 		return nil, ErrEngineNotRunning
 	}
@@ -690,6 +698,7 @@ func (x *cluster) GetGrain(ctx context.Context, identity string) (*internalpb.Gr
 // GrainExists reports whether grain metadata is present for the given
 // identity.
 func (x *cluster) GrainExists(ctx context.Context, identity string) (bool, error) {
+	verifhook.At("cluster.GrainExists", x, 0, 0)
 	if !x.running.Load() {
 		return false, ErrEngineNotRunning
 	}
@@ -709,6 +718,7 @@ func (x *cluster) GrainExists(ctx context.Context, identity string) (bool, error
 
 // RemoveGrain deletes grain metadata from the unified map and local cache.
 func (x *cluster) RemoveGrain(ctx context.Context, identity string) error {
+	verifhook.At("cluster.RemoveGrain", x, 0, 0)
 	if !x.running.Load() {
 		return ErrEngineNotRunning
 	}
@@ -773,6 +783,7 @@ func (x *cluster) Peers(ctx context.Context) ([]*Peer, error) {
 
 // Members lists all cluster members including the local node.
 func (x *cluster) Members(ctx context.Context) ([]*Peer, error) {
+	verifhook.At("cluster.Members", x, 0, 0)
 	if !x.running.Load() {
 		return nil, ErrEngineNotRunning
 	}
@@ -805,6 +816,7 @@ func (x *cluster) Members(ctx context.Context) ([]*Peer, error) {
 
 // IsLeader reports whether the local node is the cluster coordinator.
 func (x *cluster) IsLeader(ctx context.Context) bool {
+	verifhook.At("cluster.IsLeader", x, 0, 0)
 	if !x.running.Load() {
 		return false
 	}
@@ -1534,6 +1546,7 @@ func (x *cluster) putRecord(ctx context.Context, namespace recordNamespace, key 
 }
 
 func (x *cluster) putGrainIfAbsent(ctx context.Context, grain *internalpb.Grain) error {
+	verifhook.At("cluster.PutGrainIfAbsent", x, 0, 0)
 	if !x.running.Load() {
 		return ErrEngineNotRunning
 	}
